@@ -200,7 +200,7 @@ def model_requests(case, impl):
         data = bytes.fromhex(case["data"])
         return [line(ID, "run", _cfg_wire(case["cfg"]), base.segments(data, case["cuts"]), atom(bool(case.get("eof", True))))]
     calls = [[bytes.fromhex(c), [[bytes.fromhex(o), t] for o, t in s]] for c, s in impl["calls"]]
-    return [line(ID, "gzip", [_cfg_wire(case["cfg"]), 0], calls)]
+    return [line(ID, "gzip", [_cfg_wire(case["cfg"]), case.get("idx", 0)], calls)]
 
 
 def model_result(case, replies):
@@ -234,7 +234,7 @@ def spec_requests(case, impl):
         return [line(ID, "spec", _cfg_wire(case["cfg"]), bytes.fromhex(case["data"])),
                 line(ID, "within", _cfg_wire(case["cfg"]), max(nreq, len(lens) and max(lens) + 1),
                      [[i, n] for i, n in sorted(lens.items())])]
-    return [line(ID, "eff", _cfg_wire(case["cfg"]), 0)]
+    return [line(ID, "eff", _cfg_wire(case["cfg"]), case.get("idx", 0))]
 
 
 def spec_violation(case, impl, replies):
@@ -258,11 +258,18 @@ def spec_violation(case, impl, replies):
     # ValueError("decompressor.flush returned data") -> logged at ERROR, connection closed without a response (see docs).
     if not impl["a_ok"]:
         return "decompress called with max_length <= 0"
+    # the gzip request is request number idx of the connection (idx bodiless requests precede it, each finished)
+    finished = impl["ev"].count("fin") > case.get("idx", 0)
+    # what the real decompressor produced over all its calls, whatever the stream was (complete, truncated, multi-member):
+    # "decompresses beyond max_body_size" is an observed fact then, and the body must have been refused and the connection closed
+    produced = sum(len(o) // 2 for _, script in impl["calls"] for o, _ in script)
+    if case.get("gz") and produced > limit and (finished or not impl["closed"]):
+        return "gzip body decompressed to %d > limit %d and was not refused" % (produced, limit)
     full = case.get("plain_len")
     if full is not None and case.get("complete"):
-        if full > limit and ("fin" in impl["ev"] or not impl["closed"]):
+        if full > limit and (finished or not impl["closed"]):
             return "gzip body decompressing to %d > limit %d was not refused" % (full, limit)
-        if full <= limit and case.get("comp_len", 0) <= limit and ("fin" not in impl["ev"] or got != full):
+        if full <= limit and case.get("comp_len", 0) <= limit and (not finished or got != full):
             return "gzip body within the limit (%d <= %d) was not delivered whole (got %d)" % (full, limit, got)
     return None
 
@@ -298,12 +305,13 @@ def stats(case, impl):
 
 def signature(case, impl, why):
     if why.startswith("application handed"):
-        return "%s/over-limit-delivered/%s" % (case["kind"], "override" if case["cfg"]["ov"] and case["cfg"]["ov"][0] is not None else "default")
+        ov, i = case["cfg"]["ov"], case.get("idx", 0)
+        return "%s/over-limit-delivered/%s" % (case["kind"], "override" if len(ov) > i and ov[i] is not None else "default")
     if case["kind"] == "gzip":
         if "not refused" in why:
             return "gzip/oversize-not-refused"
         if "not delivered whole" in why:
-            return "gzip/within-limit-affected/%s" % ("override" if case["cfg"]["ov"] else "default")
+            return "gzip/within-limit-affected/%s" % ("override" if len(case["cfg"]["ov"]) > case.get("idx", 0) else "default")
         return "gzip/" + re.sub(r"[^a-z]+", "-", why.lower())[:30]
     return "limit/" + base.signature({**case, "kind": "stream"}, impl, why)
 
@@ -488,8 +496,17 @@ def _gzip_case(rng):
     enc = "" if style == "plain-identity" else "Content-Encoding: %s\r\n" % rng.choice(["gzip", "gzip", "GZIP", "Gzip"])
     data = _frame(rng, comp, extra=enc)
     gz = style != "plain-identity"
-    return cfg, data, {"plain_len": len(plain), "complete": complete, "comp_len": len(comp), "gen": style,
-                       "near": abs(len(plain) - limit) <= 2 or len(plain) > limit, "gz": gz}
+    meta = {"plain_len": len(plain), "complete": complete, "comp_len": len(comp), "gen": style,
+            "near": abs(len(plain) - limit) <= 2 or len(plain) > limit, "gz": gz}
+    if rng.random() < 0.3:
+        # the gzip request is not the first one of the connection: idx bodiless requests precede it, each with its own
+        # (irrelevant) override -- the limit of the gzip request must be the one of ITS position, nothing may leak over
+        idx = rng.choice([1, 1, 2])
+        data = b"".join(b"GET /p%d HTTP/1.1\r\nHost: x\r\n\r\n" % j for j in range(idx)) + data
+        cfg["ov"] = [rng.choice([None, 0, 7, 100000]) for _ in range(idx)] + cfg["ov"]
+        meta["idx"] = idx
+        meta["gen"] = style + "+after"
+    return cfg, data, meta
 
 
 def gen_cases(rng, tier):
